@@ -33,7 +33,8 @@ EXPLANATION = (
     "holds the payload operators against the counter table; R4 compares the "
     "class attributes any Metrics method mutates with the fresh literals "
     "beginCollect assigns; R6 checks register / one incIter per yield / "
-    "endIter in the ticking generators.  Equality of the numbers with an "
+    "endIter and one default-type addUse (iter-trace row) in the block of the "
+    "yield in the ticking generators.  Equality of the numbers with an "
     "executed kernel is not decided.")
 RULE = ("one obligation per function containing Metrics calls (taint), per "
         "Metrics call site (guard), per payload slot (counter table), per "
